@@ -5,6 +5,6 @@ set -u
 if [ -n "$(git -C /repo status --porcelain)" ]; then echo "with_seed: /repo is not clean; commit first"; exit 3; fi
 patch=$1; shift
 git -C /repo apply "$patch" || { echo "with_seed: patch does not apply"; exit 4; }
-"$@"; rc=$?
+timeout ${SEED_TIMEOUT:-600} "$@"; rc=$?
 git -C /repo checkout -- . ; git -C /repo clean -fdq
 exit $rc
